@@ -340,10 +340,10 @@ run_tq(FILE * f)
 	}
 	/* Drain with a time later than everything. */
 	if (Q != NULL && !stop) {
-		tv.tv_sec = 4000000000000LL; tv.tv_usec = 0;		/* later than any time a program uses */
+		tv.tv_sec = 1000000000000000LL; tv.tv_usec = 0;		/* later than any time a program uses */
 		for (i = 0; i <= MAXEL + 1; i++) {
 			id = tentid(timerqueue_getptr(Q, &tv));
-			vt_begin("t_getptr"); vt_int("sh", (long long)(4000000000000LL) >> 30); vt_int("s", (long long)(4000000000000LL) & 0x3fffffff); vt_int("u", 0); vt_int("id", id); vt_end();
+			vt_begin("t_getptr"); vt_int("sh", (long long)(1000000000000000LL) >> 30); vt_int("s", (long long)(1000000000000000LL) & 0x3fffffff); vt_int("u", 0); vt_int("id", id); vt_end();
 			if (id <= 0)
 				break;
 			tents[id].in = 0;
